@@ -15,6 +15,7 @@ import os
 
 import numpy as np
 
+from vf import bigcases
 from vf import core
 from vf import callforms
 from vf import solverlib as sl
@@ -269,3 +270,4 @@ def run(ctx):
     ctx.cov["lowpass_comparisons"] = int(sum(r.get("obs", {}).get("lowpass_tested", 0) for r in res))
     if ret == 0:
         raise core.HarnessError("no combination returned a result - the enumeration is vacuous")
+    bigcases.run(ctx, "C11")
